@@ -98,7 +98,7 @@ def mk_pass(rules, ncols, cols, trans, nstates, ntrans, nsucc, rulemap_lists, st
     return hdr + body + passcon + cc + ac
 
 
-def silf(passes_fn, npasses, isubst, ipos, ijust, classes, nlinear, dirn=0, ibidi=0xFF):
+def silf(passes_fn, npasses, isubst, ipos, ijust, classes, nlinear, dirn=0, ibidi=0xFF, amirror=0):
     ncls = len(classes)
     cm = u16(ncls) + u16(nlinear)
     off = 4 + 2 * (ncls + 1)
@@ -110,7 +110,7 @@ def silf(passes_fn, npasses, isubst, ipos, ijust, classes, nlinear, dirn=0, ibid
     offs.append(off + len(data))
     cm += b''.join(u16(o) for o in offs) + data
     hdr = (u32(0x00030000) + u16(0) + u16(0) + u16(NG - 1) + u16(0) + u16(0) + u8(npasses) + u8(isubst) + u8(ipos) + u8(ijust) + u8(ibidi) + u8(0)
-           + u8(2) + u8(2) + u8(1) + u8(2) + u8(3) + u8(4) + u8(0)   # maxPre,maxPost, aPseudo=1,aBreak=2,aBidi=3,aMirror=4,aPassBits=0
+           + u8(2) + u8(2) + u8(1) + u8(2) + u8(3) + u8(amirror) + u8(0)   # maxPre,maxPost, aPseudo=1,aBreak=2,aBidi=3,aMirror (0: none),aPassBits=0
            + u8(0)                                                # numJLevels
            + u16(0) + u8(2) + u8(0) + u8(dirn + 1) + u8(0) + b'\0' * 3 + u8(0) + u8(0) + u8(0) + u16(0))   # direction byte: Silf::readGraphite stores byte - 1
     fixed_after = 4 * (npasses + 1) + 8
@@ -283,7 +283,22 @@ def gen_font(r, npasses=None, dirn=None, maxloop=None, posallow=None, allow=None
     ibidi = 0xFF
     if rtl and br.random() < 0.5:
         ibidi = br.choice([ipos, ipos, br.randrange(ipos, np_ + 1)])
-    data = build_with(passes_fn, np_, isubst, ipos, CLASSES, dirn=d, gattr=gattr, ijust=(None if ibidi == 0xFF else ibidi), ibidi=ibidi)
+    # mirroring (Segment::doMirror: requests with gr_rtl | gr_nobidi): most fonts have no mirror attribute (aMirror = 0) - some of those
+    # carry values in glyph attribute 0, which must then not be taken for mirror glyphs -, some have one (attribute 4 = the mirror
+    # glyph, attribute 5 = "keep under gr_nomirror")
+    mr = r.__class__(r.random())
+    amirror = 0
+    if rtl:
+        k = mr.random()
+        if k < 0.25:
+            for g in range(1, NG):
+                if mr.random() < 0.4:
+                    gattr[g][0] = mr.choice([1, 5, 9, 300])
+        elif k < 0.6:
+            amirror = 4
+            for g in range(NG):
+                gattr[g] = gattr[g] + [mr.choice([0, 0, 1 + mr.randrange(NG - 1)]) if g else 0, mr.choice([0, 0, 1])]
+    data = build_with(passes_fn, np_, isubst, ipos, CLASSES, dirn=d, gattr=gattr, ijust=(None if ibidi == 0xFF else ibidi), ibidi=ibidi, amirror=amirror)
     colarr = [0xFFFF] + [(g - 1) % ncols for g in range(1, NG)]
     pm = []
     for sp in specs:
@@ -295,14 +310,14 @@ def gen_font(r, npasses=None, dirn=None, maxloop=None, posallow=None, allow=None
             ";".join("%d,%d,%s,%s" % (ru[0], ru[1], ru[2].hex() or "-", ru[3].hex() or "-") for ru in sp["rules"]),
             ";".join(".".join(map(str, ru[4])) for ru in sp["rules"]),
             sp["pcon"].hex() or "-"]))
-    model = "ipos=%d sdir=%d bidi=%d classes=%s gattr=%s gadv=%s passes=%s" % (ipos, d, ibidi, ";".join(".".join(map(str, c)) for c in CLASSES),
+    model = "ipos=%d sdir=%d bidi=%d mirror=%d classes=%s gattr=%s gadv=%s passes=%s" % (ipos, d, ibidi, amirror, ";".join(".".join(map(str, c)) for c in CLASSES),
                                                                       ";".join(".".join(map(str, g)) for g in gattr), ".".join(str(500 + 10 * g) for g in range(NG)), "|".join(pm))
     desc = {"passes": np_, "ipos": ipos, "ncols": ncols, "dir": d, "bidi": ibidi, "model": model,
             "rules": [[{"sort": ru[0], "pre": ru[1], "con": ru[2].hex(), "act": ru[3].hex(), "pat": list(ru[4]), "kinds": ru[5]} for ru in sp["rules"]] for sp in specs]}
     return data, desc
 
 
-def build_with(passes_fn, npasses, isubst, ipos, classes, dirn=0, gattr=None, upem=1000, ijust=None, ibidi=0xFF):
+def build_with(passes_fn, npasses, isubst, ipos, classes, dirn=0, gattr=None, upem=1000, ijust=None, ibidi=0xFF, amirror=0):
     glat = u32(0x00010000)
     locs = []
     for g in range(NG):
@@ -312,7 +327,7 @@ def build_with(passes_fn, npasses, isubst, ipos, classes, dirn=0, gattr=None, up
     locs.append(len(glat))
     gloc = u32(0x00010000) + u16(0) + u16(NATTR) + b''.join(u16(l) for l in locs)
     return sfnt({'head': head(upem), 'hhea': hhea(), 'hmtx': hmtx(), 'maxp': maxp(), 'cmap': cmap(), 'Gloc': gloc, 'Glat': glat, 'Feat': feat(), 'Sill': sill(),
-                 'Silf': silf(passes_fn, npasses, isubst, ipos, npasses if ijust is None else ijust, classes, len(classes), dirn, ibidi=ibidi)})
+                 'Silf': silf(passes_fn, npasses, isubst, ipos, npasses if ijust is None else ijust, classes, len(classes), dirn, ibidi=ibidi, amirror=amirror)})
 
 
 def gen_text(r, maxlen=12):
